@@ -250,8 +250,11 @@ def frameEmax (emax exp : Int) : Int :=
 def quantizeCore (c : Ctx) (v : Dec) (exp : Int) : Dec × Cond :=
   let diff := exp - v.exp
   if diff < 0 then
-    if diff < MinExponent then (v, cSysUnderflow ||| cUnderflow)
-    else ({ v with coeff := v.coeff * 10 ^ (-diff).toNat, exp := exp }, {})
+    -- a zero coefficient needs no rescaling, whatever the distance (repair of finding F6)
+    if !v.isZero then
+      if diff < MinExponent then (v, cSysUnderflow ||| cUnderflow)
+      else ({ v with coeff := v.coeff * 10 ^ (-diff).toNat, exp := exp }, {})
+    else ({ v with exp := exp }, {})
   else if diff > 0 then
     let p : Int := (ndigits v.coeff : Int) - diff
     if p < 0 then
